@@ -398,7 +398,7 @@ func ext۰reflect۰Value۰Pointer(fr *frame, args []value) value {
 	case *closure:
 		return uintptr(unsafe.Pointer(v))
 	default:
-		panic(fmt.Sprintf("reflect.(Value).Pointer(%T)", v))
+		panic(rtErr(fr, fmt.Sprintf("reflect: call of %s", fmt.Sprintf("reflect.(Value).Pointer(%T)", v))))
 	}
 }
 
@@ -422,7 +422,7 @@ func ext۰reflect۰Value۰Index(fr *frame, args []value) value {
 		r[3] = rVRO(args[0])
 		return r
 	default:
-		panic(fmt.Sprintf("reflect.(Value).Index(%T)", v))
+		panic(rtErr(fr, fmt.Sprintf("reflect: call of %s", fmt.Sprintf("reflect.(Value).Index(%T)", v))))
 	}
 }
 
@@ -464,7 +464,7 @@ func ext۰reflect۰Value۰Elem(fr *frame, args []value) value {
 		r[3] = rVRO(args[0])
 		return r
 	default:
-		panic(fmt.Sprintf("reflect.(Value).Elem(%T)", x))
+		panic(rtErr(fr, fmt.Sprintf("reflect: call of %s", fmt.Sprintf("reflect.(Value).Elem(%T)", x))))
 	}
 }
 
@@ -505,7 +505,7 @@ func ext۰reflect۰Value۰Int(fr *frame, args []value) value {
 	case int64:
 		return x
 	default:
-		panic(fmt.Sprintf("reflect.(Value).Int(%T)", x))
+		panic(rtErr(fr, fmt.Sprintf("reflect: call of %s", fmt.Sprintf("reflect.(Value).Int(%T)", x))))
 	}
 }
 
@@ -531,7 +531,7 @@ func ext۰reflect۰Value۰IsNil(fr *frame, args []value) value {
 	case *closure:
 		return x == nil
 	default:
-		panic(fmt.Sprintf("reflect.(Value).IsNil(%T)", x))
+		panic(rtErr(fr, fmt.Sprintf("reflect: call of %s", fmt.Sprintf("reflect.(Value).IsNil(%T)", x))))
 	}
 }
 
